@@ -308,6 +308,23 @@ func (w *World) submit(in *Instance, it *Item, low bool, plan []int) *Submission
 	s.PoolLenBefore, _ = poolInfo(l)
 	inc := in.inc
 	go func() {
+		defer func() {
+			// a submitter that panics got no outcome at all
+			if r := recover(); r != nil {
+				if in.inc != inc || in.dead {
+					select {}
+				}
+				w.smu.Lock()
+				prop := "C17"
+				if w.prof.Prop == "C02" {
+					prop = "C02" // "waiters see an error unless every step succeeded"
+				}
+				w.orc.v(prop, "waiter-panic", "submission %d panicked instead of getting an outcome: %s", s.ID, clip(fmt.Sprint(r)))
+				w.smu.Unlock()
+				s.Returned++
+				s.Done, s.DoneStep, s.Err = true, w.sim.Step, fmt.Errorf("panic: %v", r)
+			}
+		}()
 		e := *it.Entry // addLeafToPool keeps the pointer; give each submission its own copy
 		wait, src := l.VerifAddLeafToPool(context.Background(), &e, low)
 		s.Source = src
